@@ -765,23 +765,41 @@ Definition start_beyond (g : list Z) (cfg : config) : bool :=
   | StStr t => match parse_tc t r23976 with Some (l, _) => beyond_first_minute l | None => false end
   end.
 
-Lemma rows_spec g cfg rows : length g = 1024%nat -> max_rows g (spec_rows (cf_rows cfg)) = Some rows ->
-  match cf_rows cfg with
-  | MrNone => default_teletext_rows
-  | MrMNR => if teletext_dsc (gsi_dsc g) then default_teletext_rows
-             else match py_int (sub 253 2 g) with Some n => n | None => default_teletext_rows end
-  | MrInt n => if teletext_dsc (gsi_dsc g) then default_teletext_rows else n
-  end = rows.
+(* S's grid (a declared count that is not positive is no count) is the reader's row count after its guard
+   `if self.max_row_count < 1` *)
+Lemma grid_rows_guard n : grid_rows n = if n <? 1 then 23 else n.
+Proof. destruct (n <? 1) eqn:E; destruct n as [|p|p]; cbn [grid_rows]; try reflexivity; lia. Qed.
+Lemma grid_rows_pos n : 1 <= grid_rows n.
+Proof. destruct n as [|p|p]; cbn [grid_rows]; lia. Qed.
+Lemma max_rows_pos g c rows : max_rows g c = Some rows -> 1 <= rows.
 Proof.
-  intros Hlen H. unfold max_rows in H. change default_teletext_rows with 23.
+  unfold max_rows. destruct (teletext_dsc _); [intros H; injection H as <-; lia|].
+  destruct c as [| |n].
+  - intros H; injection H as <-; lia.
+  - destruct (numeric_field _) as [[n|]|]; [| |discriminate]; intros H; injection H as <-; [apply grid_rows_pos | lia].
+  - intros H; injection H as <-. apply grid_rows_pos.
+Qed.
+Lemma rows_guard_pos x : 1 <= (if x <? 1 then default_teletext_rows else x).
+Proof. change default_teletext_rows with 23. destruct (x <? 1) eqn:E; lia. Qed.
+
+Lemma rows_spec g cfg rows : length g = 1024%nat -> max_rows g (spec_rows (cf_rows cfg)) = Some rows ->
+  (let raw := match cf_rows cfg with
+              | MrNone => default_teletext_rows
+              | MrMNR => if teletext_dsc (gsi_dsc g) then default_teletext_rows
+                         else match py_int (sub 253 2 g) with Some n => n | None => default_teletext_rows end
+              | MrInt n => if teletext_dsc (gsi_dsc g) then default_teletext_rows else n
+              end in
+   if raw <? 1 then default_teletext_rows else raw) = rows.
+Proof.
+  intros Hlen H. unfold max_rows in H. change default_teletext_rows with 23. cbv zeta.
   destruct (teletext_dsc (gsi_dsc g)).
   - injection H as <-. destruct (cf_rows cfg); reflexivity.
   - destruct (cf_rows cfg) as [| |n]; cbn [spec_rows] in H.
     + injection H as <-. reflexivity.
     + unfold gsi_mnr in H. destruct (numeric_field (sub 253 2 g)) as [[n|]|] eqn:E; [| |discriminate]; injection H as <-.
-      * rewrite (py_int_number _ n); [reflexivity | apply sub_nonempty; lia | exact E].
+      * rewrite (py_int_number _ n); [symmetry; apply grid_rows_guard | apply sub_nonempty; lia | exact E].
       * rewrite (py_int_nan _ E). reflexivity.
-    + injection H as <-. reflexivity.
+    + injection H as <-. symmetry. apply grid_rows_guard.
 Qed.
 
 Lemma start_spec g cfg sc r fps start : length g = 1024%nat ->
@@ -885,8 +903,8 @@ Qed.
 
 (* THE WHOLE FILE.  For every file made of bytes that lies in the domain of the specification (a complete GSI block
    with a known DFC, complete TTI blocks, well-bracketed extension chains and cumulative sets, increasing subtitle
-   numbers, TCO not before TCI, at least one row, numeric GSI fields without blanks or signs) and every reader
-   configuration, outside the one recorded finding (df-23976), the reader returns a document, and its divisions are
+   numbers, TCO not before TCI, numeric GSI fields without blanks or signs) and every reader configuration - any
+   row count, a count below 1 meaning the default grid since the repair of the reader -, outside the one recorded finding (df-23976), the reader returns a document, and its divisions are
    the specification's subtitle groups: paragraph by paragraph the same alignment, exactly the same timed parts
    (begin and end = TCI and TCO at the DFC rate minus the programme start, early subtitles dropped; the text of the
    concatenated text fields up to the first unused-space bytes, decoded with the CCT's table, with its line breaks,
@@ -907,7 +925,6 @@ Proof.
   destruct (subtitles_of bs) as [subs|] eqn:Hsubs; [|discriminate].
   destruct (max_rows g (spec_rows (cf_rows cfg))) as [rows'|] eqn:Hrows; [|discriminate].
   destruct (programme_start r g sc) as [start|] eqn:Hstart; [|discriminate].
-  destruct (rows' <? 1) eqn:Hpos; [discriminate|].
   destruct (paragraphs_go r start (decoder_spec (gsi_cct g)) (teletext_dsc (gsi_dsc g)) subs (-1) [] None) as [ps|] eqn:Hps; [|discriminate].
   injection Hpres as <- <-.
   (* the trigger, in parts *)
@@ -936,7 +953,7 @@ Proof.
     pose proof (subs_facts P _ None subs Hsubs HP I) as Hall.
     eapply Forall_impl; [|exact Hall]. intros x [HPx Hbx]. unfold P in HPx. split; [exact Hbx|].
     split; apply Hrate; destruct (is_stl23 (gsi_dfc g)); try reflexivity; cbn [andb] in *; apply orb_false_iff in HPx; tauto. }
-  assert (Hrows1 : 1 <= rows') by lia.
+  assert (Hrows1 : 1 <= rows') by (eapply max_rows_pos, Hrows).
   assert (HI : Inv rows' state0 (-1) [] None []).
   { split; [apply shape_nil; reflexivity|]. split; [constructor|]. split; [exact I | discriminate]. }
   destruct (fold_paragraphs fdat r start (gsi_cct g) (teletext_dsc (gsi_dsc g)) rows' Hfs Hfc Hft Hfr Hrows1
@@ -946,31 +963,42 @@ Proof.
   apply divisions_match. exact HR.
 Qed.
 
-(* the reader never fails for want of a paragraph: whatever the file, the only failures are a short GSI or TTI block,
-   an unparsable configured start time code, and a division by a row count of zero *)
-Lemma complete_errors f s t tf e : complete_subtitle f s t tf = inr e -> e = EZeroDiv.
+(* the reader never fails for want of a paragraph, and - since DataFile.__init__ replaces a row count below 1 by the
+   default - never divides by zero: whatever the file and the configuration, the only failures are a short GSI or TTI
+   block and an unparsable configured start time code *)
+Lemma region_none rows vp tf dh : region_for rows vp tf dh = None -> rows = 0.
+Proof.
+  unfold region_for. cbv zeta. destruct (_ <? _); [discriminate|]. destruct (rows =? 0) eqn:E; [lia | discriminate].
+Qed.
+(* one block, any data file parameters: the only failure is the division, and it needs a row count of zero *)
+Lemma complete_errors f s t tf e : complete_subtitle f s t tf = inr e -> e = EZeroDiv /\ f_max_rows f = 0.
 Proof.
   unfold complete_subtitle. destruct (q_neg _); [discriminate|]. destruct (q_lt _ _); [discriminate|].
   unfold no_paragraph. destruct (st_cur s) as [[sgn p]|] eqn:Hc.
   - rewrite orb_false_r. destruct (sn_differs _ _ && _).
-    + destruct (region_for _ _ _ _); [|intros H; injection H as <-; reflexivity]. destruct (get_region _ _). cbn [st_cur]. discriminate.
+    + destruct (region_for _ _ _ _) eqn:Er; [|intros H; injection H as <-; split; [reflexivity | eapply region_none, Er]].
+      destruct (get_region _ _). cbn [st_cur]. discriminate.
     + cbn [st_cur]. rewrite ?Hc. discriminate.
-  - rewrite orb_true_r. destruct (region_for _ _ _ _); [|intros H; injection H as <-; reflexivity].
+  - rewrite orb_true_r. destruct (region_for _ _ _ _) eqn:Er; [|intros H; injection H as <-; split; [reflexivity | eapply region_none, Er]].
     destruct (get_region _ _). cbn [st_cur]. discriminate.
 Qed.
-Lemma process_errors f s t e : process_tti f s t = inr e -> e = EZeroDiv.
+Lemma process_errors f s t e : process_tti f s t = inr e -> e = EZeroDiv /\ f_max_rows f = 0.
 Proof.
   unfold process_tti. destruct (_ && _); [discriminate|]. destruct (t_cf t =? 1); [discriminate|].
   destruct (negb _); [discriminate | apply complete_errors].
 Qed.
-Lemma read_blocks_errors f : forall fuel bs s e, read_blocks fuel f s bs = inr e -> e = EStruct \/ e = EZeroDiv.
+(* with at least one row no block fails *)
+Lemma process_total f s t : 1 <= f_max_rows f -> exists s', process_tti f s t = inl s'.
 Proof.
-  induction fuel as [|k IH]; intros bs s e H; [discriminate|].
+  intros Hr. destruct (process_tti f s t) as [s'|e] eqn:Hp; [eexists; reflexivity|].
+  apply process_errors in Hp. lia.
+Qed.
+Lemma read_blocks_errors f : 1 <= f_max_rows f -> forall fuel bs s e, read_blocks fuel f s bs = inr e -> e = EStruct.
+Proof.
+  intros Hr. induction fuel as [|k IH]; intros bs s e H; [discriminate|].
   destruct bs as [|b0 bs']; [discriminate|]. rewrite read_blocks_S in H by discriminate.
-  destruct (negb _); [injection H as <-; left; reflexivity|].
-  destruct (process_tti f s _) as [s'|e'] eqn:Hp.
-  - eapply IH, H.
-  - injection H as <-. right. eapply process_errors, Hp.
+  destruct (negb _); [injection H as <-; reflexivity|].
+  destruct (process_total f s (unpack_tti (firstn 128 (b0 :: bs'))) Hr) as [s' Hp]. rewrite Hp in H. eapply IH, H.
 Qed.
 Lemma init_errors g cfg e : init g cfg = inr e -> e = EValue.
 Proof.
@@ -979,12 +1007,122 @@ Proof.
   - destruct (py_int _); [destruct (py_int _); [destruct (py_int _); [destruct (py_int _)|]|]|]; discriminate.
   - destruct (parse_tc _ _) as [[l r]|]; [discriminate|]. intros H. injection H as <-. reflexivity.
 Qed.
-Theorem reader_errors file cfg e : reader_model file cfg = Err e -> e = EStruct \/ e = EValue \/ e = EZeroDiv.
+(* DataFile.__init__ leaves at least one row, whatever the GSI block and the configuration *)
+Lemma init_rows g cfg f : init g cfg = inl f -> 1 <= f_max_rows f.
+Proof.
+  unfold init. cbv zeta. destruct (cf_start cfg) as [| |t].
+  - intros H. injection H as <-. cbn [f_max_rows]. apply rows_guard_pos.
+  - destruct (py_int _); [destruct (py_int _); [destruct (py_int _); [destruct (py_int _)|]|]|];
+      intros H; injection H as <-; cbn [f_max_rows]; apply rows_guard_pos.
+  - destruct (parse_tc _ _) as [[l r]|]; [|discriminate]. intros H. injection H as <-. cbn [f_max_rows]. apply rows_guard_pos.
+Qed.
+Theorem reader_errors file cfg e : reader_model file cfg = Err e -> e = EStruct \/ e = EValue.
 Proof.
   unfold reader_model. cbv zeta. destruct (negb _); [intros H; injection H as <-; auto|].
-  destruct (init _ cfg) as [f|e'] eqn:Hi; [|intros H; injection H as <-; right; left; eapply init_errors, Hi].
+  destruct (init _ cfg) as [f|e'] eqn:Hi; [|intros H; injection H as <-; right; eapply init_errors, Hi].
   destruct (read_blocks _ f state0 _) as [s|e'] eqn:Hr; [discriminate|].
-  intros H; injection H as <-. apply read_blocks_errors in Hr. tauto.
+  intros H; injection H as <-. left. eapply read_blocks_errors; [eapply init_rows, Hi | exact Hr].
+Qed.
+(* ... in particular a division by zero never happens (formerly C18's stl-zero-row-count: MNR 00 / max_row_count 0) *)
+Theorem reader_no_zero_div file cfg : reader_model file cfg <> Err EZeroDiv.
+Proof. intros H. apply reader_errors in H as [H|H]; discriminate. Qed.
+(* with the GSI block and the TTI blocks complete and a decoded configuration (C09_config_start_parses) the reader
+   returns a document: every file whose length is 1024 + 128 k bytes, every configuration without a start time code
+   that SmpteTimeCode.parse rejects *)
+Lemma read_blocks_total f : 1 <= f_max_rows f -> forall fuel bs s,
+  (exists k, length bs = (128 * k)%nat) -> exists s', read_blocks fuel f s bs = inl s'.
+Proof.
+  intros Hr. induction fuel as [|n IH]; intros bs s [k Hk]; [eexists; reflexivity|].
+  destruct bs as [|b0 bs']; [eexists; reflexivity|]. rewrite read_blocks_S by discriminate.
+  destruct k as [|k]; [cbn [length] in Hk; lia|].
+  assert (Hl : length (firstn 128 (b0 :: bs')) = 128%nat) by (rewrite firstn_length; lia).
+  rewrite Hl. cbn [Nat.eqb negb].
+  destruct (process_total f s (unpack_tti (firstn 128 (b0 :: bs'))) Hr) as [s' Hp]. rewrite Hp.
+  apply IH. exists k. rewrite skipn_length. lia.
+Qed.
+Theorem reader_total file cfg k : length file = (1024 + 128 * k)%nat ->
+  (forall t, cf_start cfg = StStr t -> forall fps, parse_tc t fps <> None) ->
+  exists d, reader_model file cfg = Ok d.
+Proof.
+  intros Hlen Hcfg. unfold reader_model. cbv zeta.
+  assert (Hg : length (firstn 1024 file) = 1024%nat) by (rewrite firstn_length; lia).
+  rewrite Hg. cbn [Nat.eqb negb].
+  destruct (init _ cfg) as [f|e] eqn:Hi.
+  - destruct (read_blocks_total f (init_rows _ _ _ Hi) (S (length file)) (skipn 1024 file) state0) as [s Hs].
+    + exists k. rewrite skipn_length. lia.
+    + rewrite Hs. eexists. reflexivity.
+  - exfalso. revert Hi. unfold init. cbv zeta. destruct (cf_start cfg) as [| |t] eqn:Hc.
+    + discriminate.
+    + destruct (py_int _); [destruct (py_int _); [destruct (py_int _); [destruct (py_int _)|]|]|]; discriminate.
+    + destruct (parse_tc t _) as [[l r]|] eqn:Hp; [discriminate|]. exfalso. eapply Hcfg; [reflexivity | exact Hp].
+Qed.
+(* the region of every subtitle whose rows fit the grid lies inside the safe area, for EVERY GSI block and every
+   configuration (no hypothesis on the row count is left) *)
+Theorem reader_region_inside g cfg f vp tf r : init g cfg = inl f ->
+  region_for (f_max_rows f) vp tf (has_double_height_char tf) = Some r ->
+  first_row vp + rows_occupied tf - 1 <= f_max_rows f -> inside_safe_area (rect_of r).
+Proof. intros Hi. apply region_inside. pose proof (init_rows _ _ _ Hi). lia. Qed.
+(* ... and the region of a subtitle always exists *)
+Theorem reader_region_exists g cfg f vp tf dh : init g cfg = inl f -> exists r, region_for (f_max_rows f) vp tf dh = Some r.
+Proof. intros Hi. apply region_exists. pose proof (init_rows _ _ _ Hi). lia. Qed.
+
+(* every region of the document that is returned - whatever the file and the configuration - is the region the reader
+   computes for some subtitle on a grid of at least one row, hence (region_choice) the specification's top-anchored
+   region of a first row or bottom-anchored region of a last row on that grid *)
+Definition anchored (rows : Z) (r : region) : Prop :=
+  exists vp tf, region_for rows vp tf (has_double_height_char tf) = Some r.
+Lemma get_region_forall (P : region -> Prop) rs r : Forall P rs -> P r -> Forall P (snd (get_region rs r)).
+Proof.
+  intros H Hr. unfold get_region. destruct (find_region rs r 0); cbn [snd]; [exact H|].
+  apply Forall_app. split; [exact H | constructor; [exact Hr | constructor]].
+Qed.
+Lemma complete_regions f s t tf s' : complete_subtitle f s t tf = inl s' ->
+  Forall (anchored (f_max_rows f)) (st_regions s) -> Forall (anchored (f_max_rows f)) (st_regions s').
+Proof.
+  intros H Hs. unfold complete_subtitle in H.
+  destruct (q_neg _); [injection H as <-; exact Hs|]. destruct (q_lt _ _); [injection H as <-; exact Hs|].
+  destruct (_ || _).
+  - destruct (region_for _ _ _ _) as [r|] eqn:Er; [|discriminate].
+    pose proof (get_region_forall _ _ r Hs (ex_intro _ _ (ex_intro _ _ Er))) as Hg.
+    destruct (get_region _ _) as [ri rs]. cbn [st_cur st_regions st_in_ext st_tf st_last_sn st_divs snd] in *.
+    injection H as <-. exact Hg.
+  - cbn [st_cur st_regions st_in_ext st_tf st_last_sn st_divs] in H. destruct (st_cur s) as [[sgn p]|]; [|discriminate].
+    injection H as <-. exact Hs.
+Qed.
+Lemma process_regions f s t s' : process_tti f s t = inl s' ->
+  Forall (anchored (f_max_rows f)) (st_regions s) -> Forall (anchored (f_max_rows f)) (st_regions s').
+Proof.
+  unfold process_tti. destruct (_ && _); [intros H; injection H as <-; auto|].
+  destruct (t_cf t =? 1); [intros H; injection H as <-; auto|].
+  destruct (negb _); [intros H; injection H as <-; auto | apply complete_regions].
+Qed.
+Lemma read_blocks_regions f : forall fuel bs s s', read_blocks fuel f s bs = inl s' ->
+  Forall (anchored (f_max_rows f)) (st_regions s) -> Forall (anchored (f_max_rows f)) (st_regions s').
+Proof.
+  induction fuel as [|k IH]; intros bs s s' H Hs; [injection H as <-; exact Hs|].
+  destruct bs as [|b0 bs']; [injection H as <-; exact Hs|]. rewrite read_blocks_S in H by discriminate.
+  destruct (negb _); [discriminate|].
+  destruct (process_tti f s _) as [s1|e] eqn:Hp; [|discriminate].
+  eapply IH; [exact H | eapply process_regions; [exact Hp | exact Hs]].
+Qed.
+Theorem reader_regions file cfg d : reader_model file cfg = Ok d ->
+  exists rows, 1 <= rows /\ Forall (anchored rows) (d_regions d).
+Proof.
+  unfold reader_model. cbv zeta. destruct (negb _); [discriminate|].
+  destruct (init _ cfg) as [f|e] eqn:Hi; [|discriminate].
+  destruct (read_blocks _ f state0 _) as [s|e] eqn:Hr; [|discriminate].
+  intros H. injection H as <-. exists (f_max_rows f). split; [eapply init_rows, Hi|].
+  unfold finish. cbn [d_regions]. eapply read_blocks_regions; [exact Hr | constructor].
+Qed.
+Theorem reader_regions_spec file cfg d : reader_model file cfg = Ok d ->
+  exists rows, 1 <= rows /\
+    Forall (fun r => exists vp tf,
+              (first_row vp < rows / 2 /\ rect_equiv (rect_of r) (top_anchored rows (first_row vp))) \/
+              (rows / 2 <= first_row vp /\ rect_equiv (rect_of r) (bottom_anchored rows (first_row vp + rows_occupied tf - 1))))
+           (d_regions d).
+Proof.
+  intros H. destruct (reader_regions _ _ _ H) as (rows & Hr & Ha). exists rows. split; [exact Hr|].
+  eapply Forall_impl; [|exact Ha]. intros r (vp & tf & E). exists vp, tf. eapply region_choice, E.
 Qed.
 
 (* the same at the level of blocks: EVERY list of TTI blocks in the specification's domain, any data file parameters
@@ -1015,12 +1153,6 @@ Proof.
   exists s'. split; [exact Hfold|]. rewrite (commit_shape _ _ Hshape). apply divisions_match. exact HR.
 Qed.
 
-(* a division by zero needs a row count of zero *)
-Lemma region_none rows vp tf dh : region_for rows vp tf dh = None -> rows = 0.
-Proof.
-  unfold region_for. cbv zeta. destruct (_ <? _); [discriminate|]. destruct (rows =? 0) eqn:E; [lia | discriminate].
-Qed.
-
 (* ---- a file in the domain (non-vacuity of file_presentation) ---- *)
 Definition example_file : list Z :=
   witness_gsi ++ witness_tti 1 1 2 20 1 0 [65] ++ witness_tti 2 2 3 20 3 0 [66] ++ witness_tti 3 4 5 0 0 0 [3; 67; 138; 68] ++
@@ -1030,32 +1162,6 @@ Proof.
   apply Forall_forall. intros b Hb.
   assert (H : forallb (fun b => (0 <=? b) && (b <? 256)) example_file = true) by (vm_compute; reflexivity).
   rewrite forallb_forall in H. specialize (H b Hb). unfold is_byte. lia.
-Qed.
-
-(* ---- failures, continued: a division by zero needs max_row_count = 0 (C18's stl-zero-row-count) ---- *)
-Lemma complete_zero_div f s t tf : complete_subtitle f s t tf = inr EZeroDiv -> f_max_rows f = 0.
-Proof.
-  unfold complete_subtitle. destruct (q_neg _); [discriminate|]. destruct (q_lt _ _); [discriminate|].
-  destruct (_ || _).
-  - destruct (region_for _ _ _ _) eqn:Er; [|intros _; eapply region_none, Er]. destruct (get_region _ _). cbn [st_cur]. discriminate.
-  - cbn [st_cur]. destruct (st_cur s) as [[sgn p]|]; discriminate.
-Qed.
-Lemma read_blocks_zero_div f : forall fuel bs s, read_blocks fuel f s bs = inr EZeroDiv -> f_max_rows f = 0.
-Proof.
-  induction fuel as [|k IH]; intros bs s H; [discriminate|].
-  destruct bs as [|b0 bs']; [discriminate|]. rewrite read_blocks_S in H by discriminate.
-  destruct (negb _); [discriminate|].
-  destruct (process_tti f s _) as [s'|e'] eqn:Hp; [eapply IH, H|].
-  injection H as ->. unfold process_tti in Hp. destruct (_ && _); [discriminate|]. destruct (t_cf _ =? 1); [discriminate|].
-  destruct (negb _); [discriminate|]. eapply complete_zero_div, Hp.
-Qed.
-Theorem reader_zero_div file cfg : reader_model file cfg = Err EZeroDiv ->
-  exists f, init (unpack_gsi (firstn 1024 file)) cfg = inl f /\ f_max_rows f = 0.
-Proof.
-  unfold reader_model. cbv zeta. destruct (negb _); [discriminate|].
-  destruct (init _ cfg) as [f|e'] eqn:Hi; [|intros H; injection H as ->; apply init_errors in Hi; discriminate].
-  destruct (read_blocks _ f state0 _) as [s|e'] eqn:Hr; [discriminate|].
-  intros H. injection H as ->. exists f. split; [reflexivity|]. eapply read_blocks_zero_div, Hr.
 Qed.
 
 (* ---- stl/config.py decoders in front of DataFile.__init__ ---- *)
